@@ -226,5 +226,7 @@ G12_mesh = [
     r('Mesh3D._tri_centroid', [TLst(P3)], name='Mesh3D__tri_centroid'),
     r('Mesh3D._quad_centroid', [TLst(P3)], name='Mesh3D__quad_centroid'),
     r('Mesh2D._quad_to_triangles', [TLst(P2)], name='Mesh2D__quad_to_triangles'),
+    r('Mesh2D.join_meshes', [TLst(O('Mesh2D'))], name='Mesh2D_join_meshes'),
+    r('Mesh3D.join_meshes', [TLst(O('Mesh3D'))], name='Mesh3D_join_meshes'),
 ]
 LAYERS.append(('G12_mesh', G12_mesh))
